@@ -442,4 +442,144 @@ termination_by es => sizeOf es
 decreasing_by all_goals (simp_wf; try omega)
 end
 
+/-- **frame lemma for extra trailing slots**, expression form: an expression whose slot indices are all
+    below `k`, run from a state with at least `k` slots, carries any extra trailing slots unchanged to
+    every result (same results, same order), and every result keeps the number of slots -/
+theorem sem_frame_extra (c : Ctx) (k : Nat) (e : Expr) (h : slotsBelow k e = true) (ix : Nat)
+    (sl extra : List (Option Nat)) (hk : k ≤ sl.length) :
+    sem c e ⟨ix, sl ++ extra⟩ = (sem c e ⟨ix, sl⟩).map (fun r => ⟨r.ix, r.slots ++ extra⟩) ∧
+      ∀ r, r ∈ sem c e ⟨ix, sl⟩ → r.slots.length = sl.length :=
+  sem_ext c k e h ⟨ix, sl⟩ extra hk
+
+/-- the same for a concatenation (the form the delegate oracle runs) -/
+theorem semConcat_frame_extra (c : Ctx) (k : Nat) (es : List Expr) (h : slotsBelowAll k es = true) (ix : Nat)
+    (sl extra : List (Option Nat)) (hk : k ≤ sl.length) :
+    semConcat c es ⟨ix, sl ++ extra⟩ = (semConcat c es ⟨ix, sl⟩).map (fun r => ⟨r.ix, r.slots ++ extra⟩) ∧
+      ∀ r, r ∈ semConcat c es ⟨ix, sl⟩ → r.slots.length = sl.length :=
+  semConcat_ext c k es h ⟨ix, sl⟩ extra hk
+
+/-- the hypotheses are satisfiable on a non-trivial instance: `(?:(a)\1|\K)` with 4 slots, and the
+    conclusion computed on it -/
+example : slotsBelow 4 (.alt [.concat [.group 1 (.literal ['a'] false), .backref 1], .keepOut]) = true ∧
+    4 ≤ ([none, none, none, none] : List (Option Nat)).length := by
+  simp [slotsBelow, slotsBelowAll]
+
+/-! ## The delegate oracle -/
+
+theorem viewSlots_append (a b : List Nat) : viewSlots (a ++ b) = viewSlots a ++ viewSlots b := by
+  simp [viewSlots]
+
+theorem viewSlots_length (a : List Nat) : (viewSlots a).length = a.length := by
+  simp [viewSlots]
+
+/-- clearing `n` groups from `sg` on, all inside `a`, touches only `a` and keeps its length -/
+theorem clearFold_append (sg : Nat) (b : List (Option Nat)) : ∀ (n : Nat) (a : List (Option Nat)),
+    (∀ i, i < n → (sg + i) * 2 + 1 < a.length) →
+    (List.range n).foldl (fun sl i => (sl.set ((sg + i) * 2) none).set ((sg + i) * 2 + 1) none) (a ++ b) =
+      (List.range n).foldl (fun sl i => (sl.set ((sg + i) * 2) none).set ((sg + i) * 2 + 1) none) a ++ b ∧
+    ((List.range n).foldl (fun sl i => (sl.set ((sg + i) * 2) none).set ((sg + i) * 2 + 1) none) a).length =
+      a.length := by
+  intro n
+  induction n with
+  | zero => intro a _; simp
+  | succ n ih =>
+    intro a h
+    obtain ⟨h1, h2⟩ := ih a (fun i hi => h i (by omega))
+    have hn := h n (by omega)
+    simp only [List.range_succ, List.foldl_append, List.foldl_cons, List.foldl_nil]
+    rw [h1]
+    refine ⟨?_, ?_⟩
+    · rw [List.set_append_left _ _ (by omega), List.set_append_left _ _ (by simp only [List.length_set]; omega)]
+    · simp only [List.length_set]; exact h2
+
+theorem clearGroups_append (a b : List (Option Nat)) (sg eg : Nat) (h : eg * 2 ≤ a.length) :
+    clearGroups (a ++ b) sg eg = clearGroups a sg eg ++ b ∧ (clearGroups a sg eg).length = a.length := by
+  unfold clearGroups
+  exact clearFold_append sg b (eg - sg) a (fun i hi => by omega)
+
+/-- the oracle on the whole vector is the oracle on the first `nS` cells with the (viewed) tail
+    re-appended; the latter's result has exactly `nS` slots -/
+theorem delegateOracle_ext (c : Ctx) (es : List Expr) (sg eg ix k nS : Nat) (flat : List Nat)
+    (hes : slotsBelowAll k es = true) (heg : eg * 2 ≤ nS) (hk : k ≤ nS) (hn : nS ≤ flat.length) :
+    delegateOracle c es sg eg ix flat =
+        (delegateOracle c es sg eg ix (flat.take nS)).map (extSt (viewSlots (flat.drop nS))) ∧
+      ∀ r', delegateOracle c es sg eg ix (flat.take nS) = some r' → r'.slots.length = nS := by
+  have hlen : (viewSlots (flat.take nS)).length = nS := by
+    rw [viewSlots_length, List.length_take]; omega
+  obtain ⟨hc1, hc2⟩ := clearGroups_append (viewSlots (flat.take nS)) (viewSlots (flat.drop nS)) sg eg
+    (by omega)
+  have hsplit : clearGroups (viewSlots flat) sg eg =
+      clearGroups (viewSlots (flat.take nS)) sg eg ++ viewSlots (flat.drop nS) := by
+    rw [← hc1, ← viewSlots_append, List.take_append_drop]
+  obtain ⟨h1, h2⟩ := semConcat_ext c k es hes ⟨ix, clearGroups (viewSlots (flat.take nS)) sg eg⟩
+    (viewSlots (flat.drop nS)) (by simp only; omega)
+  unfold delegateOracle
+  simp only [semKConcat_eq, findSome?_some_eq_head?]
+  refine ⟨?_, ?_⟩
+  · rw [hsplit, ← List.head?_map, ← h1]
+    rfl
+  · intro r' hr'
+    have := h2 r' (List.mem_of_mem_head? hr')
+    simp only at this
+    omega
+
+/-- **delegates read and write only ordinary slots**: running the oracle on the whole vector and on
+    its first `nS` cells gives the same success, the same end position and the same ordinary slots -/
+theorem delegateOracle_frame (c : Ctx) (es : List Expr) (sg eg ix k nS : Nat) (flat : List Nat)
+    (hes : slotsBelowAll k es = true) (heg : eg * 2 ≤ nS) (hk : k ≤ nS) (hn : nS ≤ flat.length) :
+    (delegateOracle c es sg eg ix flat).isSome = (delegateOracle c es sg eg ix (flat.take nS)).isSome ∧
+      ∀ r r', delegateOracle c es sg eg ix flat = some r →
+        delegateOracle c es sg eg ix (flat.take nS) = some r' →
+        r.ix = r'.ix ∧ ∀ j, j < nS → r.slot j = r'.slot j := by
+  obtain ⟨h1, h2⟩ := delegateOracle_ext c es sg eg ix k nS flat hes heg hk hn
+  refine ⟨by rw [h1, Option.isSome_map], ?_⟩
+  intro r r' hr hr'
+  rw [h1, hr'] at hr
+  simp only [Option.map_some, Option.some.injEq] at hr
+  subst hr
+  have hl := h2 r' hr'
+  exact ⟨rfl, fun j hj => extSt_slot _ _ _ (by omega)⟩
+
+/-- the hypotheses of `delegateOracle_frame` on a concrete instance: the delegate `(a)\1` for group 1
+    of a 4-slot program, on a vector with two auxiliary cells -/
+example : slotsBelowAll 4 [.group 1 (.literal ['a'] false), .backref 1] = true ∧ 2 * 2 ≤ 4 ∧ 4 ≤ 4 ∧
+    4 ≤ ([0, 7, 3, 5, 9, 9] : List Nat).length := by
+  simp [slotsBelow, slotsBelowAll]
+
+/-! ## The program condition -/
+
+/-- decidable condition on a program: every `Delegate` owns groups inside the ordinary slots and its
+    expressions mention only ordinary slots -/
+def progDelegOK (nS : Nat) (prog : List Insn) : Bool :=
+  prog.all fun i =>
+    match i with
+    | .delegate es sg eg => decide (eg * 2 ≤ nS) && decide (sg ≤ eg) && slotsBelowAll nS es
+    | _ => true
+
+/-- **`DelegOK` from the decidable program condition** (discharges the hypothesis of `link2`) -/
+theorem delegOK_of_prog (c : Ctx) (prog : List Insn) (nS : Nat) (h : progDelegOK nS prog = true) :
+    DelegOK c prog nS := by
+  intro pc es sg eg hp
+  have hmem : Insn.delegate es sg eg ∈ prog := List.mem_of_getElem? hp
+  have := (List.all_eq_true.mp h) _ hmem
+  simp only [Bool.and_eq_true, decide_eq_true_eq] at this
+  obtain ⟨⟨heg, hsg⟩, hes⟩ := this
+  refine ⟨heg, hsg, ?_⟩
+  intro ix flat hn
+  obtain ⟨h1, h2⟩ := delegateOracle_frame c es sg eg ix nS nS flat hes heg (Nat.le_refl _) hn
+  refine ⟨h1, ?_⟩
+  intro r r' hr hr'
+  obtain ⟨h3, h4⟩ := h2 r r' hr hr'
+  exact ⟨h3, fun g _ hg => ⟨h4 _ (by omega), h4 _ (by omega)⟩⟩
+
+/-- a concrete program with a real `Delegate` (group 1 = `(a)`, followed by `\1`) -/
+def exDelegProg : List Insn :=
+  [.save 0, .delegate [.group 1 (.literal ['a'] false), .backref 1] 1 2, .save 1, .end_]
+
+example : progDelegOK 4 exDelegProg = true := by
+  simp [progDelegOK, exDelegProg, slotsBelow, slotsBelowAll]
+
+example (c : Ctx) : DelegOK c exDelegProg 4 :=
+  delegOK_of_prog c exDelegProg 4 (by simp [progDelegOK, exDelegProg, slotsBelow, slotsBelowAll])
+
 end Fancy
